@@ -68,7 +68,7 @@ var ParseTexts = []string{
 }
 
 var SharedTexts = []string{
-	"SELECT x, y AS al, mean(x) FROM m WHERE host = 'a' AND x > 1.5 GROUP BY host",
+	"SELECT x, y::field AS al, mean(x), s::tag FROM m WHERE host::tag = 'a' AND x::field > 1.5 AND y::integer > 0 GROUP BY host",
 	"SELECT /x|y/, top(x, host, 2) INTO db.rp.t FROM (SELECT * FROM m WHERE s =~ /^(a|b)$/), db2..m2, /re/ WHERE time > now() - 1h AND host =~ /^srv$/ GROUP BY time(1m), * fill(1.5) ORDER BY time DESC LIMIT 3 TZ('UTC')",
 	"SELECT *, count(*), time FROM m, m2 GROUP BY *",
 	"CREATE CONTINUOUS QUERY cq ON db BEGIN SELECT mean(x) INTO t FROM m WHERE host !~ /^(a|b)$/ GROUP BY time(1h) END",
